@@ -222,7 +222,7 @@ pub fn on_client_packet(w: &mut World, conn: usize, idx: usize, raw: &[u8]) {
                 w.fault("pingresp_withheld");
             } else {
                 let mut d = delay_us(w, 0x9100 + idx as u64, 2);
-                if w.cfg.profile == Profile::Timing && w.tape.chance(1, 6) {
+                if w.cfg.profile == Profile::Timing && !w.benign && w.tape.chance(1, 6) {
                     // exactly around the documented 5 s round-trip bound
                     d = 5 * US_PER_S - 1 + w.tape.choose(3) as u64;
                     w.probe("pingresp_around_timeout_bound");
